@@ -19,6 +19,12 @@ func Readln(r *bufio.Reader) (string, error) {
 		line, isPrefix, err = r.ReadLine()
 		ln = append(ln, line...)
 	}
+	// A last line without end of line that fills the reader's buffer exactly
+	// comes back flagged as prefix; the end of file met afterwards must not
+	// discard it
+	if err == io.EOF && len(ln) > 0 {
+		err = nil
+	}
 	return string(ln), err
 }
 
